@@ -80,6 +80,78 @@ def gen_case(rnd, idx):
     return t, path, signs
 
 
+def venom_cases(rnd, n):
+    import types
+    from unittest import mock
+    import vyper.codegen_venom.expr as VE
+    from vyper import ast as vy_ast
+    from vyper.semantics.data_locations import DataLocation as DL
+    from vyper.semantics.types import IntegerT
+    from .c04_export import venom_observe
+    from .c10_decls import T
+    ns = types.SimpleNamespace
+    real_sub = VE.Expr._lower_array_subscript
+    real_fld = VE.Expr._lower_struct_field
+    locs = [(DL.MEMORY, 32), (DL.STORAGE, 1), (DL.TRANSIENT, 1), (DL.CALLDATA, 32), (DL.CODE, 32)]
+    exprs, meta = [], []
+
+    def fake_expr(base_vv, index):
+        class FakeExpr:
+            def __init__(s, nd, ctx):
+                s.nd = nd
+
+            def lower(s):
+                return base_vv
+
+            def lower_value(s):
+                return index
+        return FakeExpr
+    with warnings.catch_warnings():
+        warnings.simplefilter("ignore")
+        with settings_ctx():
+            for idx in range(n):
+                names = Names(f"_v{idx}_")
+                loc, ws = locs[idx % len(locs)]
+                inner = gen_type(rnd, names, 2, allow_map=False, big=rnd.random() < 0.2, small=rnd.random() < 0.5)
+                kind = rnd.choice(["sarr", "darr", "struct"])
+                if kind == "struct":
+                    nm = rnd.randint(1, 4)
+                    t = T("struct", name=names.fresh("S"), members=[(f"f{i}", gen_type(rnd, names, 1, False, False, True)) for i in range(nm)])
+                    j = rnd.randrange(nm)
+
+                    def runf(b, ps, t=t, j=j, loc=loc):
+                        node = vy_ast.Attribute.__new__(vy_ast.Attribute)
+                        object.__setattr__(node, "value", ns(_metadata={"type": vy_type(t)}))
+                        object.__setattr__(node, "attr", t.members[j][0])
+                        fself = ns(node=node, ctx=ns(builder=b), builder=b, _make_ptr_value=lambda p, l, ty: p)
+                        with mock.patch.object(VE, "Expr", fake_expr(ns(operand=ps[0], location=loc), None)):
+                            return real_fld(fself)
+                    terms, res = venom_observe(runf, 1, full=True)
+                    step, signed = f"SField {j}%nat", False
+                else:
+                    if kind == "sarr" and inner.kind in ("bytes", "flag"):
+                        inner = T("word", name="uint256")
+                    count = rnd.choice([1, 2, 5, 2**64])
+                    t = T(kind, t=inner, n=count)
+                    signed = rnd.random() < 0.5
+                    it = IntegerT(signed, rnd.choice([8, 64, 128, 256]))
+
+                    def runs(b, ps, t=t, it=it, loc=loc):
+                        node = vy_ast.Subscript.__new__(vy_ast.Subscript)
+                        object.__setattr__(node, "value", ns(_metadata={"type": vy_type(t)}))
+                        object.__setattr__(node, "slice", ns(_metadata={"type": it}))
+                        fctx = ns(builder=b, load_word=lambda addr, l: b.load(addr, l))
+                        fself = ns(node=node, ctx=fctx, builder=b, _make_ptr_value=lambda p, l, ty: p)
+                        with mock.patch.object(VE, "Expr", fake_expr(ns(operand=ps[0], location=loc), ps[1])):
+                            return real_sub(fself, True)
+                    terms, res = venom_observe(runs, 2, full=True)
+                    step = "SIdx 0"
+                exprs.append(f"[if match vaddr_step {ws} {'true' if signed else 'false'} {t.coq()} ({step}) with "
+                             f"Some (tpl, _) => vtemplate_eqb ({terms}, {res}) tpl | None => false end then 1 else 0]")
+                meta.append({"type": t.src(), "location": loc.name, "step": step, "signed": signed, "observed": terms[:800]})
+    return exprs, meta
+
+
 def run(ctx, model_ok, n):
     from vyper.codegen.core import get_element_ptr
     from vyper.codegen.ir_node import IRnode
@@ -142,8 +214,19 @@ def run(ctx, model_ok, n):
                                       {"type": t.src(), "level": k, "observed": str(node)[:800]})
                         return len(exprs), True
                     cur = cur.v
+    # ---- venom front end: one subscript / struct-member step (Expr._lower_array_subscript, _lower_struct_field)
+    vexprs, vmeta = venom_cases(rnd, max(40, n // 2))
     found = False
-    if model_ok and exprs:
+    if model_ok and vexprs:
+        outs = coqrun.eval_zlists("From Verif Require Import C03.LIR C03.VSL C10.Layout C10.VAddrTemplates.\n", vexprs, "c10vaddr",
+                                  shard=max(8, len(vexprs) // 4 + 1))
+        for m, o in zip(vmeta, outs):
+            if o != [1]:
+                ctx.violation("correspondence-broken", "venom address code differs from the template VAddrTemplates.vaddr_step", m)
+                found = True
+                break
+    ctx.corr["venom_address_steps"] = len(vexprs)
+    if model_ok and exprs and not found:
         outs = coqrun.eval_zlists("From Verif Require Import C03.LIR C10.Layout C10.AddrTemplates.\n", exprs, "c10addr",
                                   shard=max(8, len(exprs) // 4 + 1))
         for m, o in zip(meta, outs):
